@@ -44,9 +44,27 @@ def run(ctx, rep):
         for fill in (0, 0xFF, 0x5A):
             muts.append(("sig-fill", fill, pkt[:-16] + [fill] * 16))
         muts.append(("sig-md5-unkeyed", 0, pkt[:-16] + list(__import__("hashlib").md5(bytes(pkt[:-16])).digest())))
+        # bytes FOLLOWING an authentic packet in the same read (further packets of the stream, block-aligned data): whatever is
+        # returned must be the authentic frame of the first packet
+        others = []
+        for m in (5, 20, 35):
+            F.set_time(2024, 5, 6, 7, 8, 10, 0)
+            others.append(F.v2_encode(rng.randrange(2 ** 48), rbytes(rng, m))[1])
+        for tail in (others[0], others[0] + others[1], others[0] + others[1] + others[2], others[2] + others[2] + others[0],
+                     rbytes(rng, 16), rbytes(rng, 48), rbytes(rng, 7)):
+            muts.append(("append", len(tail), pkt + tail))
         for kind, pos, q in muts:
             code, val = F.v2_decode(q)
             rep.case((n, kind, tuple(q)), kind)
+            if kind == "append":
+                if code == 0 and val != frame:
+                    rep.fail("oracle", "different-frame-decoded-from-following-bytes", {"frame": bytes(frame).hex(), "packet": bytes(pkt).hex()},
+                             {"read": bytes(q).hex(), "decoded": bytes(val).hex()})
+                elif code not in (0, 10, 11):
+                    rep.fail("oracle", f"corrupted-packet-raises:{code}", {"packet": bytes(pkt).hex(), "kind": kind}, {"exception": str(val)[:80]})
+                if rng.random() < 0.5:
+                    sample_model.append((q, code, val))
+                continue
             if code == 0:
                 rep.fail("oracle", "corrupted-packet-accepted" + ("" if val == frame else "-as-different-frame"),
                          {"frame": bytes(frame).hex(), "packet": bytes(pkt).hex(), "kind": kind, "pos": pos},
